@@ -267,6 +267,8 @@ pub fn cmd_explore(opt: &HashMap<String, String>) -> i32 {
     // state of the closure is explored for d_after further operations
     let verdict_reached = |phases: &Vec<Phase>| phases.iter().any(|ph| !ph.result.violations.is_empty() || ph.result.machinery.is_some());
     let is_hidden = |k: &Vec<u8>| k.windows(crate::faults::HIDDEN_MAGIC.len()).any(|w| w == crate::faults::HIDDEN_MAGIC);
+    let is_hidden_t = |k: &Vec<u8>| k.windows(crate::faults::HIDDEN_MAGIC_T.len()).any(|w| w == crate::faults::HIDDEN_MAGIC_T);
+    let (mut hidden_t, novel): (Vec<_>, Vec<_>) = novel.into_iter().partition(|(_, _, k)| is_hidden_t(k));
     let (mut hidden, plain): (Vec<_>, Vec<_>) = novel.into_iter().partition(|(_, _, k)| is_hidden(k));
     // hidden-state roots: shortest histories first, a bounded number (they exist only when a fault leaves scratch state behind)
     hidden.sort_by_key(|(r, h, _)| (h.len(), *r));
@@ -318,6 +320,64 @@ pub fn cmd_explore(opt: &HashMap<String, String>) -> i32 {
         let result = ex.run(&eo);
         phases.push(Phase { name: format!("{what} (depth {depth})"), result, roots: roots2, alpha_len, nkeys, fault_props: fp, u: u.clone() });
     }
+    }
+
+    // Hidden state without a fault: transitions of the closure that are self-loops as far as the
+    // hook can tell (same canonical key, same table allocation) although the bytes of the cache
+    // object changed. The canonical key cannot tell such a state from its predecessor, so the
+    // closure merged them; here each becomes a root of its own, never merged with another root,
+    // explored under the ordinary rules. (On the unchanged tree there is no such transition.)
+    if !hidden_t.is_empty() && !fault_only && !verdict_reached(&phases) {
+        hidden_t.sort_by_key(|(r, h, _)| (h.len(), *r));
+        {
+            // every root configuration gets its share, and so does every kind of operation
+            let mut per_root: std::collections::BTreeMap<usize, usize> = Default::default();
+            let mut per_kind: std::collections::HashMap<(usize, std::mem::Discriminant<Op>), usize> = Default::default();
+            hidden_t.retain(|(r, h, _)| {
+                let kind = std::mem::discriminant(h.last().unwrap());
+                let nk = per_kind.entry((*r, kind)).or_insert(0);
+                *nk += 1;
+                if *nk > 4 {
+                    return false;
+                }
+                let n = per_root.entry(*r).or_insert(0);
+                *n += 1;
+                *n <= 40
+            });
+        }
+        hidden_t.truncate(if thorough { 1200 } else { 400 });
+        let d_hidden = if thorough { 4 } else { 3 };
+        let roots5: Vec<Root> = hidden_t
+            .iter()
+            .map(|(r, h, _)| Root { cfg: roots[*r].cfg, prefix: h.clone(), label: format!("hidden-state root after {} steps", h.len()) })
+            .collect();
+        if std::env::var_os("LRUMC_DEBUG_HIDDEN").is_some() {
+            for (r, h, k) in hidden_t.iter().take(40) {
+                eprintln!("hidden root cfg#{r}: {:?} diff {:?}", h.iter().map(|o| o.show(&u)).collect::<Vec<_>>(), &k[k.len().saturating_sub(6)..]);
+            }
+        }
+        let alpha = alphabet(&u);
+        let alpha_len = alpha.len();
+        let mut ex = Explorer::new(&ctx, roots5.clone(), alpha);
+        let so = StateOpts { exhaustive_pat_len, owning: false, clone, clone_product: 0, trap: false, borrow_patterns: false };
+        let eo = ExploreOpts {
+            threads,
+            max_depth: d_hidden,
+            max_states: 30_000_000,
+            wall_cap_s: wall_cap,
+            state_opts: Some(so),
+            transitions: true,
+            max_violations: 200,
+            extra: None,
+            phase: 5,
+            skips: skips.clone(),
+            depth_cap: depth_caps.get(&5).copied(),
+            heavy_depth_limit: None,
+            owning_by_shape: !thorough,
+            distinct_roots: true,
+        };
+        let result = ex.run(&eo);
+        phases.push(Phase { name: format!("continuation from states that an ordinary operation left with a changed cache object although everything the hook reports is unchanged (hidden state; roots never merged; depth {d_hidden})"), result, roots: roots5, alpha_len, nkeys, fault_props: 0, u: u.clone() });
     }
 
     // quick tier: a fourth key under two well-spread hashers (the full U4 closure is the thorough tier)
@@ -577,12 +637,12 @@ pub fn cmd_explore(opt: &HashMap<String, String>) -> i32 {
         let owned: Vec<Violation> = iskips
             .iter()
             .filter_map(|(raw, why)| {
-                let (props, text) = crate::instvar::owned_by(raw);
+                let (props, text) = crate::instvar::owned_by_why(raw, why);
                 (props & sel != 0 && !raw.contains(":01")).then(|| Violation { props, rule: "C07.crash", detail: format!("{}: {why}", text.join("; ")) })
             })
             .collect();
         let r = if owned.is_empty() {
-            crate::instvar::explore(depth, ladder, if thorough { 6 } else { 5 }, if thorough { &[5000, 20000, 70000, 300000][..] } else { &[5000, 20000, 70000][..] }, threads, &iskips)
+            crate::instvar::explore_for(sel, depth, ladder, if thorough { 6 } else { 5 }, if thorough { &[5000, 20000, 70000, 300000][..] } else { &[5000, 20000, 70000][..] }, threads, &iskips)
         } else {
             crate::instvar::InstResult { violations: owned, ..Default::default() }
         };
@@ -594,7 +654,7 @@ pub fn cmd_explore(opt: &HashMap<String, String>) -> i32 {
             *stats.classes.entry(c).or_insert(0) += 1;
         }
         let cfg = Config { hk: HK::Const, cap: None, limit: usize::MAX };
-        let root = Root { cfg, prefix: vec![], label: "8 instantiations of LruCache<K, V, S> x {constant, spread} hasher x {unbounded, tight} start".into() };
+        let root = Root { cfg, prefix: vec![], label: "9 instantiations of LruCache<K, V, S> x {constant, spread} hasher x {unbounded, tight} start".into() };
         let violations = r
             .violations
             .into_iter()
@@ -617,11 +677,11 @@ pub fn cmd_explore(opt: &HashMap<String, String>) -> i32 {
             fault_states: 0,
             known: Default::default(),
         };
-        phases.push(Phase { name: format!("instantiation variants: all operation sequences <= {depth} over ~60 operations (incl. clone_from, forgotten drain) for 8 instantiations (plain data with varying size estimate and non-bitwise Clone, String/&str, zero-sized key, zero-sized value, 32-byte aligned value, default hasher, drop glue on one side)"), result, roots: vec![root], alpha_len: 60, nkeys, fault_props: 0, u: u.clone() });
+        phases.push(Phase { name: format!("instantiation variants: all operation sequences <= {depth} over ~60 operations (incl. clone_from, failing reservations, forgotten drain) for 9 instantiations (plain data with varying size estimate and non-bitwise Clone, String/&str, zero-sized key, zero-sized value, 32-byte aligned value, 200-byte inline value, default hasher, drop glue on one side); sequences of 1 and of <= 2 operations are judged in passes of their own first"), result, roots: vec![root], alpha_len: 60, nkeys, fault_props: 0, u: u.clone() });
     }
 
-    // C16 on the other instantiations
-    if want(16) && !opt.contains_key("no-instvar") && std::env::var_os("LRUMC_NO_INSTVAR").is_none() && !verdict_reached(&phases) {
+    // C16 on the other instantiations (C05: the order of what remains after a caught panic)
+    if (want(16) || want(5)) && !opt.contains_key("no-instvar") && std::env::var_os("LRUMC_NO_INSTVAR").is_none() && !verdict_reached(&phases) {
         let depth = if thorough { 3 } else { 2 };
         let t0 = std::time::Instant::now();
         let iskips: Vec<(String, String)> = skips.iter().filter(|x| x.kind == 4).filter_map(|x| x.raw.clone().map(|r| (r, x.reason.clone()))).collect();
@@ -646,10 +706,11 @@ pub fn cmd_explore(opt: &HashMap<String, String>) -> i32 {
             *stats.classes.entry(c).or_insert(0) += 1;
         }
         let cfg = Config { hk: HK::Const, cap: None, limit: usize::MAX };
-        let root = Root { cfg, prefix: vec![], label: "7 instantiations of LruCache<K, V, S> x {constant, spread} hasher x 5 prefixes x {unbounded, exactly full}".into() };
+        let root = Root { cfg, prefix: vec![], label: "8 instantiations of LruCache<K, V, S> x {constant, spread} hasher x 5 prefixes x {unbounded, exactly full}".into() };
         let violations = r
             .violations
             .into_iter()
+            .filter(|x| x.props & sel != 0)
             .map(|x| VRec { props: x.props, rule: x.rule, detail: x.detail, root: 0, hist: vec![], op: None, mode: "instvar-faults" })
             .collect();
         let result = ExploreResult {
